@@ -14,8 +14,19 @@
     (`""` ↔ `[]`, which is also how the harness reads the produced file).
   * CHARACTER level over `List Char`: `strip`, special characters, symbol
     filter, `split(" ")`, the document-marker matcher with `re.split`'s
-    capturing-group output, lower-casing.  `str.lower` and the whitespace set
-    of `str.strip` are PARAMETERS (`Tables`), supplied per input by Python.
+    capturing-group output, lower-casing.  `str.lower` and `str.isspace` are
+    PARAMETERS: in general a `TextOps` (an arbitrary string→string lowering
+    function, an arbitrary whitespace predicate — the functions with suffix
+    `G`), for the driver the per-character `Tables` supplied per input by
+    Python (`Tables.ops`; the functions without suffix).
+  * EFFECT level: `createEventFileX` on an abstract file system — the order
+    of the checks, and what a failing call leaves behind (the event file is
+    opened, and the header written, before the first corpus line is read).
+
+  Where the code raises, the model returns an explicit error:
+  `CreateErr.badPattern` (`re.error` for a set expression that does not
+  compile), `.eventFileExists`, `.corpusMissing`, `.corpusNotText`
+  (`UnicodeDecodeError`), `.callableRaised`.
 
   Mathlib-free; everything is total and structurally recursive.
 -/
@@ -229,6 +240,20 @@ end Stream
 
 /-! ## Character level -/
 
+/-- The two pieces of Python's text layer the model takes as PARAMETERS.
+
+    `lower` is an ARBITRARY function on strings: Python's `str.lower` is not a
+    per-character map (a capital sigma is lowered to `ς` at the end of a word
+    and to `σ` elsewhere: `'ΑΣ'.lower() == 'ας'`), so every theorem about the
+    character level is stated for every `TextOps`.  The driver runs the model
+    with the per-character instance `Tables.ops` (Python-supplied table
+    `c ↦ c.lower()`), which is `str.lower` on every string without U+03A3. -/
+structure TextOps where
+  /-- `str.lower` -/
+  lower : List Char → List Char
+  /-- `c.isspace()` — what `str.strip()` removes -/
+  isWs : Char → Bool
+
 /-- Python-supplied tables for one input. -/
 structure Tables where
   /-- characters `c` (of those that can occur) with `c.isspace()` — what `str.strip()` removes -/
@@ -242,12 +267,15 @@ def Tables.isWs (t : Tables) (c : Char) : Bool := t.ws.contains c
 def strip (isWs : Char → Bool) (s : List Char) : List Char :=
   ((s.dropWhile isWs).reverse.dropWhile isWs).reverse
 
-/-- `str.lower()`, character by character (no final-sigma context: the
-    harness does not generate `Σ`). -/
+/-- the per-character instance of `str.lower()` (no final-sigma context: equal
+    to `str.lower` exactly on the strings without `Σ`, U+03A3). -/
 def lowerStr (t : Tables) (s : List Char) : List Char :=
   s.flatMap fun c => match t.lower.find? (fun p => p.1 == c) with
     | some p => p.2
     | none => [c]
+
+/-- the instance the driver runs -/
+def Tables.ops (t : Tables) : TextOps := ⟨lowerStr t, t.isWs⟩
 
 /-- `special_chars = re.compile("[#_\t]")`, `special_chars.sub(' ', line)`
     (preprocess.py:245-257) -/
@@ -265,7 +293,9 @@ inductive Allowed where
 deriving Repr
 
 /-- the subset of `re` character-set syntax that is generated: literals and
-    ranges `a-z` (a `-` that is not between two characters is a literal). -/
+    ranges `a-z` (a `-` that is not between two characters is a literal).
+    TOTAL: the ranges `re` would build if the expression compiles — whether it
+    compiles is `parseSetExpr?`. -/
 def parseSetExpr : List Char → List (Char × Char)
   | [] => []
   | [a] => [(a, a)]
@@ -273,6 +303,22 @@ def parseSetExpr : List Char → List (Char × Char)
   | a :: b :: c :: rest =>
     if b == '-' then (a, c) :: parseSetExpr rest
     else (a, a) :: parseSetExpr (b :: c :: rest)
+
+/-- the domain of `parseSetExpr`: no `]`, `[`, `\` (which close the set, open a
+    nested set / class, escape).  A decidable predicate; the harness only
+    generates such expressions. -/
+def SetExprPlain (e : List Char) : Prop := ∀ c ∈ e, c ≠ ']' ∧ c ≠ '[' ∧ c ≠ '\\'
+
+instance (e : List Char) : Decidable (SetExprPlain e) :=
+  inferInstanceAs (Decidable (∀ c ∈ e, c ≠ ']' ∧ c ≠ '[' ∧ c ≠ '\\'))
+
+/-- `re.compile(f"[^{e}]")` (preprocess.py:272) for a plain expression:
+    `none` = `re.error` — the empty expression (`[^]`: "unterminated character
+    set") and a range with `lo > hi` (`z-a`: "bad character range"). -/
+def parseSetExpr? (e : List Char) : Option (List (Char × Char)) :=
+  if e.isEmpty then none
+  else if (parseSetExpr e).all (fun r => decide (r.1.toNat ≤ r.2.toNat)) then some (parseSetExpr e)
+  else none
 
 def inRanges (rs : List (Char × Char)) (c : Char) : Bool :=
   rs.any fun r => r.1.toNat ≤ c.toNat && c.toNat ≤ r.2.toNat
@@ -282,16 +328,29 @@ def Allowed.ok : Allowed → Char → Bool
   | .expr e, c => inRanges (parseSetExpr e) c
   | .table rs, c => inRanges rs c
 
+/-- does `create_event_file` raise `re.error` at :272, before anything else? -/
+def Allowed.badPattern : Allowed → Bool
+  | .expr e => (parseSetExpr? e).isNone
+  | _ => false
+
+/-- is `allowed_symbols` a callable (the only form that can raise per character)? -/
+def Allowed.isCallable : Allowed → Bool
+  | .table _ => true
+  | _ => false
+
 /-- `filter_symbols(line, replace=' ')` (262-274) -/
 def filterSymbols (a : Allowed) (s : List Char) : List Char :=
   match a with
   | .all => s
   | a => s.map fun c => if a.ok c then c else ' '
 
+/-- `line.lower()` if `lower_case` -/
+def lowered (ops : TextOps) (lowerCase : Bool) (line : List Char) : List Char :=
+  if lowerCase then ops.lower line else line
+
 /-- `process_line` (338-347): lower, special chars, symbol filter — in this order. -/
-def processLine (t : Tables) (lowerCase : Bool) (a : Allowed) (line : List Char) : List Char :=
-  let line := if lowerCase then lowerStr t line else line
-  filterSymbols a (removeSpecial line)
+def processLineG (ops : TextOps) (lowerCase : Bool) (a : Allowed) (line : List Char) : List Char :=
+  filterSymbols a (removeSpecial (lowered ops lowerCase line))
 
 /-- `line.split(" ")` -/
 def splitSpace : List Char → List (List Char)
@@ -303,9 +362,9 @@ def splitSpace : List Char → List (List Char)
       | w :: ws => (c :: w) :: ws
 
 /-- `gen_words` (349-351): `[word.strip() for word in line.split(" ") if word.strip()]` -/
-def genWords (t : Tables) (line : List Char) : List Word :=
+def genWordsG (isWs : Char → Bool) (line : List Char) : List Word :=
   (splitSpace line).filterMap fun w =>
-    let s := strip t.isWs w
+    let s := strip isWs w
     if s.isEmpty then none else some s
 
 /-! ### `context_pattern = re.compile("(---end.of.document---|---END.OF.DOCUMENT---)")` -/
@@ -331,7 +390,10 @@ def isMarkerAt (s : List Char) : Bool := matchPat markerLower s || matchPat mark
 
 /-- `context_pattern.split(line)`: leftmost non-overlapping matches; because of
     the capturing group the separators are part of the result:
-    `[t0, m1, t1, …, mk, tk]`. -/
+    `[t0, m1, t1, …, mk, tk]`.  `fuel` bounds the number of steps; every step
+    consumes at least one character, so `cs.length + 1` is enough
+    (`splitAux_fuel`: the result does not depend on the fuel beyond that;
+    `contextSplit_flatten`: nothing is dropped). -/
 def splitAux : Nat → List Char → List Char → List (List Char)
   | 0, _, cur => [cur.reverse]
   | fuel + 1, cs, cur =>
@@ -359,23 +421,41 @@ def removeMarkers (s : List Char) : List Char := (evens (contextSplit s)).flatte
         context1 = process_line(context1.strip())
         words.extend(gen_words(context1))
     ``` -/
-def elemWords (t : Tables) (lowerCase : Bool) (a : Allowed) (piece : List Char) : Option (List Word) :=
-  let c := strip t.isWs (removeMarkers piece)
-  if c.isEmpty then none else some (genWords t (processLine t lowerCase a c))
+def elemWordsG (ops : TextOps) (lowerCase : Bool) (a : Allowed) (piece : List Char) : Option (List Word) :=
+  let c := strip ops.isWs (removeMarkers piece)
+  if c.isEmpty then none else some (genWordsG ops.isWs (processLineG ops lowerCase a c))
 
 /-- the elements of one line in the `'document'` branch; `[e]` iff
     `context_pattern.search(line) is None` (then 409-410:
     `words.extend(gen_words(process_line(line)))`). -/
-def docLineElems (t : Tables) (lowerCase : Bool) (a : Allowed) (rawLine : List Char) :
+def docLineElemsG (ops : TextOps) (lowerCase : Bool) (a : Allowed) (rawLine : List Char) :
     List (Option (List Word)) :=
-  let line := strip t.isWs rawLine                      -- 377
+  let line := strip ops.isWs rawLine                      -- 377
   match contextSplit line with
-  | [_] => [some (genWords t (processLine t lowerCase a line))]
-  | pieces => pieces.map (elemWords t lowerCase a)
+  | [_] => [some (genWordsG ops.isWs (processLineG ops lowerCase a line))]
+  | pieces => pieces.map (elemWordsG ops lowerCase a)
 
 /-- the words of one line in the `'line'` branch (377, 380-381) -/
+def lineWordsG (ops : TextOps) (lowerCase : Bool) (a : Allowed) (rawLine : List Char) : List Word :=
+  genWordsG ops.isWs (processLineG ops lowerCase a (strip ops.isWs rawLine))
+
+/-! the same with the Python-supplied `Tables` (the instance `Tables.ops`);
+    definitional unfoldings of the general functions -/
+
+def processLine (t : Tables) (lowerCase : Bool) (a : Allowed) (line : List Char) : List Char :=
+  processLineG t.ops lowerCase a line
+
+def genWords (t : Tables) (line : List Char) : List Word := genWordsG t.isWs line
+
+def elemWords (t : Tables) (lowerCase : Bool) (a : Allowed) (piece : List Char) : Option (List Word) :=
+  elemWordsG t.ops lowerCase a piece
+
+def docLineElems (t : Tables) (lowerCase : Bool) (a : Allowed) (rawLine : List Char) :
+    List (Option (List Word)) :=
+  docLineElemsG t.ops lowerCase a rawLine
+
 def lineWords (t : Tables) (lowerCase : Bool) (a : Allowed) (rawLine : List Char) : List Word :=
-  genWords t (processLine t lowerCase a (strip t.isWs rawLine))
+  lineWordsG t.ops lowerCase a rawLine
 
 inductive ContextStructure where
   | document | line
@@ -394,36 +474,155 @@ def processWords (o : Options) (words : List Word) : List (Ev Word) :=
   processOccurrences o.cue o.removeDuplicates (genOccurrences o.event o.cue words)
 
 /-- the data lines of the produced file, in order (the header line
-    `cues\toutcomes` is written first, 369). -/
+    `cues\toutcomes` is written first, 369), for arbitrary `TextOps`. -/
+def createEventsG (ops : TextOps) (o : Options) (rawLines : List (List Char)) : List (Ev Word) :=
+  match o.context with
+  | .line => runLine (processWords o) (rawLines.map (lineWordsG ops o.lowerCase o.allowed))
+  | .document => runDocument (processWords o) (rawLines.map (docLineElemsG ops o.lowerCase o.allowed))
+
+/-- … with the Python-supplied tables (= `createEventsG t.ops`, `createEvents_eq_G`). -/
 def createEvents (t : Tables) (o : Options) (rawLines : List (List Char)) : List (Ev Word) :=
   match o.context with
   | .line => runLine (processWords o) (rawLines.map (lineWords t o.lowerCase o.allowed))
   | .document => runDocument (processWords o) (rawLines.map (docLineElems t o.lowerCase o.allowed))
 
-/-! ## Effect model: refusal to overwrite (preprocess.py:282-283, 367-368) -/
+/-! ## What is in the event file when the call fails late
+
+`create_event_file` opens the event file and writes the header
+(preprocess.py:367-369) BEFORE the first corpus line is read.  An exception
+after that point — a corpus that is not valid UTF-8 (`UnicodeDecodeError` from
+the line iterator), an `allowed_symbols` callable that raises — propagates
+through `with gzip.open(...) as outfile`, which closes (and flushes) the file:
+the header and every event written so far stay behind. -/
+
+/-- the events written by the `'document'` machine before the final flush -/
+def partialDocument {ω : Type} (pw : List ω → List (Ev ω)) (lines : List (List (Option (List ω)))) :
+    List (Ev ω) :=
+  (lines.foldl (docStep pw) ([], [])).2
+
+/-- The events already written when an exception strikes while raw line `k`
+    (0-based) is processed, in the element at position `i` of its
+    `context_pattern.split` (`i = 0` for `'line'` contexts, for a line without
+    marker, and for an exception of the line iterator itself).
+
+    `'line'`: the events of the lines before `k`.  `'document'`: the machine
+    has consumed the lines before `k` and, of line `k`, the elements before
+    position `i` — every `process_words` call of line `k` that precedes element
+    `i` has happened, the carry-over buffer is lost: exactly what the machine
+    emits on the truncated line `elems.take i ++ [none]` (an empty last element
+    triggers no further call). -/
+def writtenBeforeG (ops : TextOps) (o : Options) (rawLines : List (List Char)) (k i : Nat) :
+    List (Ev Word) :=
+  match o.context with
+  | .line => runLine (processWords o) ((rawLines.take k).map (lineWordsG ops o.lowerCase o.allowed))
+  | .document =>
+    partialDocument (processWords o)
+      ((rawLines.take k).map (docLineElemsG ops o.lowerCase o.allowed)
+        ++ [(docLineElemsG ops o.lowerCase o.allowed (rawLines.getD k [])).take i ++ [none]])
+
+/-- the strings handed to `filter_symbols` (i.e. to the callable, character by
+    character, in order) for one raw line, by position in the split; `[]` where
+    `process_line` is not called (marker elements, blank pieces). -/
+def seenG (ops : TextOps) (lowerCase : Bool) (ctx : ContextStructure) (rawLine : List Char) :
+    List (List Char) :=
+  let line := strip ops.isWs rawLine
+  match ctx with
+  | .line => [removeSpecial (lowered ops lowerCase line)]
+  | .document =>
+    match contextSplit line with
+    | [_] => [removeSpecial (lowered ops lowerCase line)]
+    | pieces => pieces.map fun piece =>
+        let c := strip ops.isWs (removeMarkers piece)
+        if c.isEmpty then [] else removeSpecial (lowered ops lowerCase c)
+
+/-- the first `(line, element)` at which a callable that raises on the
+    characters `raises` is handed such a character -/
+def firstFault (raises : Char → Bool) (ops : TextOps) (lowerCase : Bool) (ctx : ContextStructure) :
+    Nat → List (List Char) → Option (Nat × Nat)
+  | _, [] => none
+  | k, raw :: rest =>
+    match (seenG ops lowerCase ctx raw).findIdx? (fun s => s.any raises) with
+    | some i => some (k, i)
+    | none => firstFault raises ops lowerCase ctx (k + 1) rest
+
+/-! ## Effect model: refusal to overwrite, and what a failing call leaves behind
+    (preprocess.py:272, 282-283, 367-369) -/
 
 inductive FileContent where
+  /-- a UTF-8 text file with these lines -/
   | corpus (lines : List (List Char))
+  /-- an event file: the header line followed by these data lines.
+      `events []` is a header-only file. -/
   | events (es : List (Ev Word))
+  /-- any other regular file; as a corpus: not decodable from its first chunk -/
   | other (tag : Nat)
+  /-- a file that is not valid UTF-8: the line iterator yields the lines
+      `readable` and then raises `UnicodeDecodeError` (how many lines precede
+      the error is decided by `TextIOWrapper`'s chunked decoder: whole chunks of
+      8192 bytes; supplied, not modelled) -/
+  | badText (readable : List (List Char))
+deriving DecidableEq
 
 abbrev FS := String → Option FileContent
 
 inductive CreateErr where
   | eventFileExists      -- OSError (283)
   | corpusMissing        -- FileNotFoundError ⊆ OSError (367), raised before the event file is opened
-  | corpusNotText
+  | corpusNotText        -- UnicodeDecodeError ⊆ ValueError, raised by `for … in enumerate(corpus)` (372), AFTER the header was written
+  | badPattern           -- re.error (272), raised before anything else is looked at
+  | callableRaised       -- whatever the `allowed_symbols` callable raised (265), AFTER the header was written
 deriving Repr, BEq, DecidableEq
+
+/-- the failures that happen before `gzip.open(event_file, "wt")` -/
+def CreateErr.early : CreateErr → Bool
+  | .eventFileExists | .corpusMissing | .badPattern => true
+  | .corpusNotText | .callableRaised => false
+
+instance : DecidableEq (Except CreateErr Unit) := fun a b =>
+  match a, b with
+  | .ok (), .ok () => isTrue rfl
+  | .error e, .error e' => if h : e = e' then isTrue (by rw [h]) else isFalse (fun hh => h (by cases hh; rfl))
+  | .ok (), .error _ => isFalse (fun h => by cases h)
+  | .error _, .ok () => isFalse (fun h => by cases h)
+
+/-- the exception class of a result (`none` = the call returned) -/
+def errOf : Except CreateErr Unit → Option CreateErr
+  | .ok _ => none
+  | .error e => some e
 
 def fsSet (fs : FS) (p : String) (c : FileContent) : FS := fun q => if q = p then some c else fs q
 
-/-- `create_event_file(corpus_file, event_file, …)` as a function of the file system -/
-def createEventFile (t : Tables) (o : Options) (corpusFile eventFile : String) (fs : FS) :
-    Except CreateErr Unit × FS :=
-  if (fs eventFile).isSome then (.error .eventFileExists, fs)
+/-- the lines the iterator yields, and whether it then raises -/
+def FileContent.readable : FileContent → List (List Char) × Bool
+  | .corpus lines => (lines, false)
+  | .badText lines => (lines, true)
+  | .events _ => ([], true)        -- a gzip file is not UTF-8 (0x8b in its magic)
+  | .other _ => ([], true)
+
+/-- `create_event_file(corpus_file, event_file, …)` as a function of the file
+    system, for arbitrary `TextOps` and a callable that raises on `raises`
+    (ignored unless `allowed_symbols` is a callable).  Order of the checks as in
+    the code: pattern (272), existing event file (282), corpus (367), then the
+    event file is created. -/
+def createEventFileX (raises : Char → Bool) (ops : TextOps) (o : Options)
+    (corpusFile eventFile : String) (fs : FS) : Except CreateErr Unit × FS :=
+  if o.allowed.badPattern then (.error .badPattern, fs)
+  else if (fs eventFile).isSome then (.error .eventFileExists, fs)
   else match fs corpusFile with
     | none => (.error .corpusMissing, fs)
-    | some (.corpus lines) => (.ok (), fsSet fs eventFile (.events (createEvents t o lines)))
-    | some _ => (.error .corpusNotText, fs)
+    | some content =>
+      let lines := content.readable.1
+      match (if o.allowed.isCallable then firstFault raises ops o.lowerCase o.context 0 lines else none) with
+      | some (k, i) =>
+        (.error .callableRaised, fsSet fs eventFile (.events (writtenBeforeG ops o lines k i)))
+      | none =>
+        if content.readable.2 then
+          (.error .corpusNotText, fsSet fs eventFile (.events (writtenBeforeG ops o lines lines.length 0)))
+        else (.ok (), fsSet fs eventFile (.events (createEventsG ops o lines)))
+
+/-- … with the Python-supplied tables and a callable that never raises -/
+def createEventFile (t : Tables) (o : Options) (corpusFile eventFile : String) (fs : FS) :
+    Except CreateErr Unit × FS :=
+  createEventFileX (fun _ => false) t.ops o corpusFile eventFile fs
 
 end Pyndl.Create
